@@ -148,6 +148,18 @@ def _run(rep, tier, seed, replay):
                                    how="harness/cmd/hx/listenloop.go: ttl 1s, one sample, clock +10 s, k batches pre-loaded into the buffered events channel, one tick on the mock ticker, Exporter.Listen, channel closed, Gather"))
                 break
         rep.extra["listen_loop_backlog_runs"] = len(ks)
+        # very many series stale for the same sweep (more than 2^16 in one family, or spread over hundreds of families)
+        mass = [(1, 70000, 5), (300, 250, 3), (1, 1, 1)] if tier == "quick" else [(1, 70000, 5), (1, 140000, 9), (300, 250, 3), (2000, 40, 3), (1, 1, 1), (3, 65536, 0), (1, 65537, 1)]
+        vf.write_lines(f"{d}/massexpiry.cases", ["%d %d %d" % x for x in mass])
+        for (fams, per, keep), o in zip(mass, vf.run_hx("massexpiry", f"{d}/massexpiry.cases", timeout=3000)):
+            rep.count(fams * per)
+            want = "before=%d/%d after=0/%d recreated=5" % (fams * per, keep, keep)
+            if o != want:
+                rep.violation("with very many series stale at one sweep: series are removed before their ttl, or stale ones survive the sweep, or a series without ttl is removed, or a recreated series does not start from its sample alone",
+                              dict(families=fams, series_per_family=per, series_without_ttl=keep, observed=o, expected=want,
+                                   how="harness/cmd/hx/massexpiry.go: rule ttl 2s, all series sampled at t=0, sweep at t=1s (all kept), ONE sweep at t=3s (all with a ttl gone), then mass0{id=0}:5|c"))
+                break
+        rep.extra["mass_expiry_runs"] = mass
     if not replay:
         import genproof
         genproof.mapper_atomicity(rep, "every sample is given the ttl configured at that moment, also while a reload is running")
